@@ -592,8 +592,13 @@ class C22:
                         out = ("ok", await perform_async(op, name))
                     finally:
                         in_flight[0] -= 1
-            except (SimDeadlock, SimStepCap, asyncio.CancelledError):
+            except (SimDeadlock, SimStepCap):
                 raise
+            except asyncio.CancelledError as e:
+                t = asyncio.current_task()
+                if t is not None and t.cancelling():
+                    raise
+                out = classify(e)      # nobody cancelled this request: an exception like any other
             except Exception as e:  # noqa: BLE001 - judged below
                 out = classify(e)
             ret = loop.event("req.return")
